@@ -398,6 +398,38 @@ def run(tier, seed, replay=None):
         if same_steps and r is not True:
             fail('plan_eq_of_equal_steps_is_not_True', {'sql': s, 'result_of_==': repr(r)})
             break
+    # steps that hold a result (what an executor stores with set_result): the laws must not depend on it
+    nres = 0
+    rep_res = 0
+    for s, p1, p2 in plans[:40]:
+        try:
+            for k_, st_ in enumerate(p1.steps):
+                st_.set_result([{'row': k_}])
+        except Exception as e:
+            fail('set_result_raises', {'sql': s, 'exception': repr(e)})
+            continue
+        for x, y in zip(p1.steps, p2.steps):
+            nres += 1
+            try:
+                refl, e1, e2 = (x == x), (x == y), (y == x)
+            except Exception as e:
+                fail('step_eq_raises', {'sql': s, 'exception': repr(e)})
+                continue
+            if rep_res < 3 and not refl:
+                rep_res += 1
+                fail('step_with_result_eq_not_reflexive', {'sql': s, 'step': repr(x)[:200]})
+            elif rep_res < 3 and bool(e1) != bool(e2):
+                rep_res += 1
+                fail('step_with_result_eq_not_symmetric', {'sql': s, 'step': repr(x)[:200], 'executed == fresh': repr(e1), 'fresh == executed': repr(e2)})
+        try:
+            pr, p12, p21 = (p1 == p1), (p1 == p2), (p2 == p1)
+            if rep_res < 3 and (pr is not True or bool(p12) != bool(p21)):
+                rep_res += 1
+                fail('plan_with_results_eq_unlawful', {'sql': s, 'executed == executed': repr(pr), 'executed == fresh': repr(p12), 'fresh == executed': repr(p21)})
+        except Exception as e:
+            fail('plan_eq_raises', {'sql': s, 'exception': repr(e)})
+    evaluations += nres
+    stats['steps_with_results_compared'] = nres
     # plans of DIFFERENT statements, the empty plan and plans cut short: == must be symmetric and equal plans must print the same
     from mindsdb_sql.planner.query_plan import QueryPlan
 
